@@ -253,7 +253,11 @@ pub(crate) fn with_document_scope<R>(f: impl FnOnce() -> R) -> R {
         }
     }
     let guard = ResetGuard;
+    // The error-location fallback of an enclosing call (this one may be nested inside a user
+    // `Deserialize` impl) describes the enclosing document, not this one.
+    let fallback = crate::de_error::MissingFieldLocationGuard::cleared();
     let result = f();
+    drop(fallback);
     drop(guard);
     result
 }
